@@ -136,7 +136,7 @@ fn canary(s: &Layer, hash: u64) requires wf(*s), hash < s.n_hash {
 '''
 
 DROPPED = [
-    "struct Layer reduced to the fields read by the extracted functions (depth, nside, n_hash, nside_remainder_mask; wf(): nside_remainder_mask == nside - 1); wf() states their relation as established by Layer::new (assumed here; Layer::new is exercised by every Kani unit)",
+    "struct Layer reduced to the fields read by the extracted functions (depth, nside, n_hash, nside_remainder_mask; wf(): nside_remainder_mask == nside - 1); wf() states their relation as established by Layer::new (proved for every depth by the Kani unit layer_new_wf)",
     "Layer::decode_hash not extracted: external_body with the assumed contract d0h < 12, i < nside, j < nside",
     "Layer::build_hash_from_parts not extracted: external_body with the assumed contract 'result < n_hash and decode_hash(result) == (d0h, i, j)' for valid parts (the codec inverse; Kani proves the per-class codec contract in C04/C18)",
     "attributes and doc comments above the signatures are not copied (#[inline])",
